@@ -359,6 +359,18 @@ theorem witness_mime_lookalike :
       = .error .mime := by
   decide +kernel
 
+/-- the MIME boundary text inside a field (no line break needed) ends the V1 text part early:
+the checksum verifies, the MIME layer hands the reader a truncated document. V2/HTTP read the
+same reply correctly (`readsBack … = true`). -/
+theorem witness_boundary :
+    validate { wRec with version := "1--RibbitBoundary".toList } = none ∧
+    clientV1 (fun _ => List.replicate 64 '0')
+      (wrapInMime (fun _ => List.replicate 64 '0')
+        (versionsText { wRec with version := "1--RibbitBoundary".toList } 5)) = .error (.bpsv .fieldCount) ∧
+    readsBack (parse (versionsText { wRec with version := "1--RibbitBoundary".toList } 5))
+      (versionsRegions.map (versionsFields { wRec with version := "1--RibbitBoundary".toList })) = true := by
+  decide +kernel
+
 /-- the reader parses `## seqn` as `u32`: from 2106 on every reply is unreadable. -/
 theorem witness_seqn_overflow : parse (versionsText wRec (2 ^ 32)) = .error .seqn := by
   decide +kernel
